@@ -17,7 +17,7 @@ def sh(cmd, **kw):
 
 
 def main():
-    dirs = sys.argv[1:] or sorted(glob.glob(V + "/seeded/C*-*"))
+    dirs = [os.path.abspath(x) for x in sys.argv[1:]] or sorted(glob.glob(V + "/seeded/C*-*"))
     confirm = {}
     cpath = os.environ.get("CONFIRM")
     if cpath and os.path.exists(cpath):
